@@ -41,6 +41,9 @@ CHECKS = {
  "C15": ("exploration", "trace automaton + field equality over raw announces recorded by independent HTTP and UDP trackers (receiver time stamps) and the peer id seen by a scripted peer",
          "Sessions announce to one HTTP and one UDP reference tracker whose replies are scripted (ok / failure / silence / garbage / flaky, interval and min-interval from {absent,0,-1,-2^31,1,2,2^31-1}) through 1-2 start/stop runs with bursts of manual announces, starting empty or complete. Each recorded announce must carry the torrent's info-hash, the 20-byte peer id the scripted peer saw in the handshake, the listening port, counters that are bounded by the torrent's and monotone; per tracker and run: first event started, completed at most once and only on completion during the run, stopped only after an accepted announce; consecutive event-less announces respect the lower bound.",
          "Spacing is measured at the receiver: judged only when a gap undercuts the bound by more than 300 ms while the load canary was on time. 'left' is recorded, not judged. Counter order is judged only for announces that arrived more than 300 ms apart.", "4/C15"),
+ "C13": ("exploration", "reference-parser monitor for magnet links (package and public API level); adopted-metadata hash monitor on magnet sessions fed by scripted honest/lying peers",
+         "Generated magnet values are rendered by the client and read back by the client and by an independent parser, foreign spellings are parsed, and AddURI(stopped) -> Torrent.Magnet() is checked through the API (hash, name, tiers as multiset of sets, peers). Magnet sessions get 1-4 scripted peers that are honest or lie about the metadata (wrong total size, short/long piece, duplicates, unrequested index, garbage, reject, wrong content, other torrent of equal size, content whose SHA-1 shares the first byte, stall, wrong/oversized metadata_size): whatever is adopted (NotifyMetadata, Torrent(), Stats().Name) must hash to the link's info-hash; a peer announcing more than MaxMetadataSize never receives a metadata request; with one honest peer the fetch must complete.",
+         "'Eventually' = within 40 s while honest peers keep being offered (load canary consulted). Tier order is not judged. Peer strings are address-shaped.", "4/C13"),
 }
 PENDING = {}
 props = [json.loads(l) for l in open(os.path.join(V, 'properties.jsonl'))]
